@@ -24,7 +24,8 @@ Definition mk_op (o : kop) : op :=
   | 0 => OpCreate (o_key o) (o_tfok o) (hd 0%Z (o_years o)) (tag_of (o_tag o))
   | 1 => OpWrite (o_key o) (o_tfok o) (o_years o) (tag_of (o_tag o))
   | 2 => OpDestroy (o_key o)
-  | _ => OpQuery (o_key o)
+  | 3 => OpQuery (o_key o)
+  | _ => OpRestart
   end.
 
 (** observation blob: code, n, added (path,"d"|"f",content)*n, n, removed*n,
@@ -125,10 +126,9 @@ Definition step_agrees (root : list byte) (o : kop) (w0 w : world) (c0 c : catal
          (k =? fc)%nat && fields_eqb (cat_tbk c') ftbk && fields_eqb (cat_files c') ffiles
      end.
 
-(** one model step; a restart replaces the catalog by a fresh scan *)
+(** one model step (a restart replaces the catalog by a fresh scan: OpRestart) *)
 Definition kstep (root : list byte) (w : world) (c : catalog) (o : kop) : world * catalog * nat :=
-  if (o_kind o =? 4)%nat then let '(c', k) := fresh_cat root w in (w, c', k)
-  else step root (w, c) (mk_op o).
+  step root (w, c) (mk_op o).
 
 Fixpoint run_agrees (root : list byte) (w : world) (c : catalog) (ops : list kop) (obs : list obs_step) : bool :=
   match ops, obs with
